@@ -144,27 +144,34 @@ func (s *Spec) write(overwrite bool) error {
 	if err != nil {
 		return fmt.Errorf("failed to marshal Spec file: %w", err)
 	}
+	verifPoint("write.marshalled", s.path, len(data))
 
 	dir = filepath.Dir(s.path)
 	err = os.MkdirAll(dir, 0o755)
 	if err != nil {
 		return fmt.Errorf("failed to create Spec dir: %w", err)
 	}
+	verifPoint("write.dirReady", s.path, 0)
 
 	tmp, err = os.CreateTemp(dir, "spec.*.tmp")
 	if err != nil {
 		return fmt.Errorf("failed to create Spec file: %w", err)
 	}
+	verifPoint("write.tmpCreated", tmp.Name(), 0)
 	_, err = tmp.Write(data)
+	verifPoint("write.tmpWritten", tmp.Name(), 0)
 	_ = tmp.Close()
+	verifPoint("write.tmpClosed", tmp.Name(), 0)
 	if err != nil {
 		return fmt.Errorf("failed to write Spec file: %w", err)
 	}
 
 	err = renameIn(dir, filepath.Base(tmp.Name()), filepath.Base(s.path), overwrite)
+	verifPoint("write.renamed", s.path, 0)
 
 	if err != nil {
 		_ = os.Remove(tmp.Name())
+		verifPoint("write.failed", tmp.Name(), 0)
 		err = fmt.Errorf("failed to write Spec file: %w", err)
 	}
 
